@@ -30,7 +30,6 @@ MANIFEST = {
 BUILD = [("./app/mint/", "mint")]
 
 SIG = "supply-growth<minted:dev-receiver-truncation"
-FINDINGS_DOC = os.path.join(vlib.ROOT, "docs", "findings_c18.json")
 
 MC_CFG = """SPECIFICATION MCSpec
 CONSTANTS
@@ -136,13 +135,6 @@ def describe_growth(v):
 def run(ctx):
     q = ctx.quick
     cov = {"samples": []}
-    # proposed known findings of this property that are not merged into /verif/known_findings.json yet
-    if os.path.exists(FINDINGS_DOC):
-        have = {f.get("signature") for f in ctx.known}
-        for f in json.load(open(FINDINGS_DOC)).get("findings", []):
-            if f.get("property") == "C18" and f.get("status") == "open" and f.get("signature") not in have:
-                ctx.known.append(f)
-
     # 1. design: exhaustive model checking of the bounded spec
     ctx.leg = "mc"
     if q:
@@ -167,7 +159,7 @@ def run(ctx):
     if q:
         gens = [dict(provs="1000, 1200, 1600, 2000", starts="0, 2", tenths="3, 5", step=2, vest=1000)]
     else:
-        gens = [dict(provs=ALL_PROVS, starts="0, 1, 2", tenths="2, 3, 5, 9", step=1, vest=1000),
+        gens = [dict(provs="1000, 1200, 1300, 1600, 1700, 2000", starts="0, 1, 2", tenths="3, 5, 9", step=1, vest=1000),
                 dict(provs="1200, 1600, 2000", starts="0, 2", tenths="3, 5", step=2, vest=12)]
     replayed = rsteps = dust_replay = 0
     kinds_model = {}
@@ -192,8 +184,9 @@ def run(ctx):
         rsteps += res["steps"]
         dust_replay += res["dust_epochs"]
         log("replayed %d spec behaviours (%d epochs, %d reductions, %d failed epochs) on the real keeper: %d mismatches, "
-            "%d epochs with developer rounding remainder kept in the vesting account"
-            % (res["behaviours"], res["steps"], res["reductions"], res["fails"], len(mm), res["dust_epochs"]))
+            "%d epochs with developer rounding remainder kept in the vesting account (%d behaviours left the model because of it)"
+            % (res["behaviours"], res["steps"], res["reductions"], res["fails"], len(mm), res["dust_epochs"],
+               res.get("diverged_after_known", 0)))
         if mm:
             m = mm[0]
             beh = open(gen).read().split("\n")[m["behaviour"]]
